@@ -145,6 +145,11 @@ impl Array8 {
         self.estimator.hip_accum()
     }
 
+    /// Whether the estimator is out of order, i.e. its HIP accumulator is not valid
+    pub(super) fn is_out_of_order(&self) -> bool {
+        self.estimator.is_out_of_order()
+    }
+
     /// Directly set a register value
     ///
     /// This bypasses the normal update path and directly modifies the register.
